@@ -2,10 +2,12 @@
 from __future__ import annotations
 
 import ast
+import re
 
-from ..flow import call_name, dotted, norm
+from .. import lib, shape
+from ..flow import Defs, call_name, dotted, norm
 from ..index import AnalysisError, FuncInfo, Resolver, walk_local
-from ..lib import cfg_of, defs_of, edge_leads_only_to_raise, live, nodes_with, return_nodes, undominated, witness
+from ..lib import cfg_of, defs_of, edge_leads_only_to_raise, live, nodes_with, return_nodes, witness
 
 PE = "pint.pint_eval"
 PR = "pint.facets.plain.registry"
@@ -47,70 +49,206 @@ def _const_table(mod, name):
 
 
 
-def token_conservation_rule(ck, ix):
-    """uncertainty_tokenizer rewrites the token stream.  Tokens taken with next(toklist) are either syntax of the
-    uncertainty notation (+ / - ( ) whose presence the branch guard has asserted by look-ahead) or content.  (1) every
-    token bound to a name reaches a yielded token (directly, as a field of a rebuilt token, or through _finalize_e);
-    (2) a token that is consumed *conditionally* (only present for some inputs: the unary minus of '(-3 +/- 1)') is
-    content and must be yielded as it is."""
-    tok = ix.func(PE, "uncertainty_tokenizer")
-    ck.analysed(tok)
-    from ..lib import defs_of
-    defs = defs_of(tok)
-    is_next = lambda c: isinstance(c, ast.Call) and isinstance(c.func, ast.Name) and c.func.id == "next" and c.args and norm(c.args[0]) == "toklist"
-    yields = [y for y in walk_local(tok.node) if isinstance(y, ast.Yield) and y.value is not None]
-    yroots = set()
-    for y in yields:
-        yroots |= defs.roots(y.value)
-    yielded_names = {n.id for y in yields for n in ast.walk(y.value) if isinstance(n, ast.Name)}
-    # names that flow into yielded names through assignments (one fixpoint over the def table)
-    flow = set(yielded_names)
+# ---------------------------------------------------------------- helpers (candidates by role, checks by shape)
+def _m(e, *patterns):
+    """Bindings of the first pattern (shape.match syntax) that matches expression `e`, else None."""
+    for p in patterns:
+        b = shape.match(p, e)
+        if b is not None:
+            return b
+    return None
+
+
+def _rm(e, fn, *patterns):
+    """_m on `e` as written and on `e` with the local temporaries of `fn` resolved."""
+    b = _m(e, *patterns)
+    return b if b is not None else _m(shape.resolve(e, fn), *patterns)
+
+
+_MIRROR = {ast.Lt: ast.Gt, ast.LtE: ast.GtE, ast.Gt: ast.Lt, ast.GtE: ast.LtE, ast.Eq: ast.Eq, ast.NotEq: ast.NotEq}
+
+
+def _eq_const(a, value, side_ok):
+    """`a` is `<side> == <value>` (either operand order) and side_ok(<side>) holds."""
+    if not (isinstance(a, ast.Compare) and len(a.ops) == 1 and isinstance(a.ops[0], ast.Eq)):
+        return False
+    l, r = a.left, a.comparators[0]
+    for x, y in ((l, r), (r, l)):
+        if isinstance(y, ast.Constant) and y.value == value and side_ok(x):
+            return True
+    return False
+
+
+def _eq_name(a, name, side_ok):
+    """`a` is `<side> == <name>` (either operand order), <name> a module-level name, and side_ok(<side>) holds."""
+    if not (isinstance(a, ast.Compare) and len(a.ops) == 1 and isinstance(a.ops[0], ast.Eq)):
+        return False
+    l, r = a.left, a.comparators[0]
+    return any(isinstance(y, ast.Name) and y.id == name and side_ok(x) for x, y in ((l, r), (r, l)))
+
+
+def _raising_edges(cfg, pred, truth):
+    """Edges on which an atom satisfying `pred` is known to be `truth` and from which only raise statements follow."""
+    return [(t, lab) for (t, lab) in shape.guard_edges(cfg, pred, want=truth) if edge_leads_only_to_raise(cfg, t, lab) is None]
+
+
+def _literal_strings(e, consts):
+    """The strings of a literal tuple/list/set of strings or of a single string constant (a module-level constant name is
+    looked up), else None."""
+    if isinstance(e, ast.Name) and e.id in consts:
+        e = consts[e.id]
+    if isinstance(e, ast.Constant) and isinstance(e.value, str):
+        return [e.value]
+    if isinstance(e, (ast.Tuple, ast.List, ast.Set)) and e.elts and all(isinstance(x, ast.Constant) and isinstance(x.value, str) for x in e.elts):
+        return sorted(x.value for x in e.elts)
+    return None
+
+
+def _flow_into(fn, sinks):
+    """Names of `fn` whose value can reach one of the `sinks` (expressions) through assignments / loop bindings."""
+    defs = Defs(fn)
+    flow = {n.id for s in sinks for n in ast.walk(s) if isinstance(n, ast.Name)}
     changed = True
     while changed:
         changed = False
         for name, ds in defs.defs.items():
             if name in flow:
                 for (v, kind, st) in ds:
-                    if v is None:
-                        continue
-                    for n in ast.walk(v):
+                    for n in (ast.walk(v) if v is not None else ()):
                         if isinstance(n, ast.Name) and n.id not in flow:
                             flow.add(n.id)
                             changed = True
+    return flow
+
+
+def _reaches(node, fn, sinks, flow=None):
+    """The value computed at `node` can reach one of the sink expressions: it is part of a sink, or part of the value
+    bound to a name that flows into a sink."""
+    flow = _flow_into(fn, sinks) if flow is None else flow
+    if any(node is x for s in sinks for x in ast.walk(s)):
+        return True
+    cur = node
+    while cur is not None and cur is not fn:
+        par = getattr(cur, "_parent", None)
+        if isinstance(par, (ast.Assign, ast.AnnAssign, ast.AugAssign, ast.NamedExpr)) and cur is par.value:
+            tg = par.targets if isinstance(par, ast.Assign) else [par.target]
+            if any(isinstance(n, ast.Name) and n.id in flow for t in tg for n in ast.walk(t)):
+                return True
+        cur = par
+    return False
+
+
+def _own_function(n):
+    while n is not None and not isinstance(n, (ast.FunctionDef, ast.AsyncFunctionDef, ast.Lambda)):
+        n = getattr(n, "_parent", None)
+    return n
+
+
+# ---------------------------------------------------------------- the uncertainty tokenizer
+def _token_stream(tok):
+    """(loop, name): the main loop of uncertainty_tokenizer = the `for` that iterates over the look-ahead iterator, and
+    the local name that iterator is bound to (found by its value `IteratorLookAhead(...)`, not by its spelling)."""
+    for loop in [l for l in walk_local(tok.node) if isinstance(l, ast.For)]:
+        if isinstance(loop.iter, ast.Name) and _m(shape.unalias(loop.iter, tok.node), "IteratorLookAhead(_X)") is not None:
+            return loop, loop.iter.id
+    raise AnalysisError("uncertainty_tokenizer: no loop over an IteratorLookAhead(...) found")
+
+
+def _dispatch_depth(node, loop):
+    """Number of `if` statements between `node` and the main loop, an if/elif/else chain counting once: 1 = directly in
+    a branch of the dispatch chain, 2 = under a further condition inside a branch."""
+    depth, cur = 0, node
+    while cur is not None and cur is not loop:
+        par = getattr(cur, "_parent", None)
+        if isinstance(par, ast.If) and cur is not par.test:
+            elif_link = isinstance(getattr(par, "_parent", None), ast.If) and par._parent.orelse == [par]
+            if not elif_link:
+                depth += 1
+        cur = par
+    return depth
+
+
+def exponent_sign_sets(ix):
+    """{helper name: [sorted sign set, ...]} for the membership / equality tests against literal sets of '+' / '-' in
+    the exponent look-ahead (_get_possible_e) and in its consumer (_finalize_e), whatever their polarity."""
+    pe = ix.module(PE)
+    tok = ix.func(PE, "uncertainty_tokenizer")
+    consts = shape.module_constants(pe)
+    sets = {}
+    for f in [g for g in pe.all_functions if g.parent is tok and g.name in ("_get_possible_e", "_finalize_e")]:
+        for c in walk_local(f.node):
+            if isinstance(c, ast.Compare) and len(c.ops) == 1 and isinstance(c.ops[0], (ast.In, ast.NotIn, ast.Eq, ast.NotEq)):
+                for side in (c.comparators[0], c.left):
+                    vals = _literal_strings(side, consts)
+                    if vals and set(vals) <= {"+", "-"}:
+                        sets.setdefault(f.name, []).append(vals)
+    return sets
+
+
+def plus_minus_sign_rewritten(ix):
+    """What uncertainty_tokenizer hands to plain_tokenizer is its input with '±' replaced by '+/-'."""
+    tok = ix.func(PE, "uncertainty_tokenizer")
+    return lib.has(ix, tok, "plain_tokenizer(input_string.replace('±', '+/-'))")
+
+
+def token_conservation_rule(ck, ix):
+    """uncertainty_tokenizer rewrites the token stream.  Tokens taken with next(<stream>) are either syntax of the
+    uncertainty notation (+ / - ( ) whose presence the branch guard has asserted by look-ahead) or content.  (1) every
+    token bound to a name reaches a yielded token (directly, as a field of a rebuilt token, or through _finalize_e);
+    (2) a token that is consumed *conditionally* (only present for some inputs: the unary minus of '(-3 +/- 1)') is
+    content and must be yielded as it is."""
+    tok = ix.func(PE, "uncertainty_tokenizer")
+    ck.analysed(tok)
+    loop, stream = _token_stream(tok)
+    is_next = lambda c: isinstance(c, ast.Call) and isinstance(c.func, ast.Name) and c.func.id == "next" and len(c.args) >= 1 and isinstance(c.args[0], ast.Name) and c.args[0].id == stream
+    yields = [y for y in walk_local(tok.node) if isinstance(y, ast.Yield) and y.value is not None]
+    flow = _flow_into(tok.node, [y.value for y in yields])
     named = [a for a in walk_local(tok.node) if isinstance(a, ast.Assign) and is_next(a.value) and isinstance(a.targets[0], ast.Name)]
     ck.floor("G-TYPESTATE", len(named), 3, "tokens bound to names in uncertainty_tokenizer")
     for a in named:
         nm = a.targets[0].id
         ck.check(nm in flow, "G-TYPESTATE", f"uncertainty_tokenizer|consumed-token-reaches-output|{nm}", tok.loc(a), f"token `{nm}` reaches a yielded token", f"the token bound to `{nm}` is consumed and never reaches the output stream")
-    # conditional consumption inside the main loop body
-    def owner(n):
-        while n is not None and not isinstance(n, (ast.FunctionDef, ast.AsyncFunctionDef, ast.Lambda)):
-            n = getattr(n, "_parent", None)
-        return n
-    main_branches = [n for n in walk_local(tok.node) if isinstance(n, ast.If) and owner(n) is tok.node]
+    # conditional consumption: a next(<stream>) under a further condition inside a branch of the dispatch chain
     cond = 0
-    for iff in main_branches:
-        par = getattr(iff, "_parent", None)
-        # an If nested inside a branch of the dispatch chain (its parent is an If/elif body of the for loop), not the chain itself
-        if not isinstance(par, ast.If) or iff in par.orelse:
-            continue
-        for st in iff.body:
-            for c in ast.walk(st):
-                if is_next(c):
-                    cond += 1
-                    ok = (isinstance(st, ast.Assign) and st.value is c and isinstance(st.targets[0], ast.Name) and
-                          any(isinstance(y, ast.Expr) and isinstance(y.value, ast.Yield) and isinstance(y.value.value, ast.Name) and y.value.value.id == st.targets[0].id for y in iff.body)) \
-                        or (isinstance(st, ast.Expr) and isinstance(st.value, ast.Yield) and st.value.value is c)
-                    ck.check(ok, "G-TYPESTATE", f"uncertainty_tokenizer|optional-token-is-yielded|if {norm(iff.test)}", tok.loc(st), "an optional token is passed on unchanged",
-                             f"under `if {norm(iff.test)}:` a token is consumed with `{norm(st)}` and not yielded: an optional token (the sign of the nominal value) is content, dropping it changes the value")
+    for c in [c for c in walk_local(loop) if is_next(c) and _dispatch_depth(c, loop) >= 2]:
+        cond += 1
+        st = c
+        while not isinstance(st, ast.stmt):
+            st = st._parent
+        block = next((getattr(st._parent, f) for f in ("body", "orelse", "finalbody") if any(x is st for x in getattr(st._parent, f, []) or [])), [])
+        later = block[[i for i, x in enumerate(block) if x is st][0] + 1:]
+        ok = (isinstance(st, ast.Expr) and isinstance(st.value, ast.Yield) and st.value.value is c) \
+            or (isinstance(st, ast.Assign) and st.value is c and isinstance(st.targets[0], ast.Name)
+                and any(isinstance(y, ast.Expr) and isinstance(y.value, ast.Yield) and isinstance(y.value.value, ast.Name) and y.value.value.id == st.targets[0].id for y in later))
+        guard = next((p for p in _ancestors(st) if isinstance(p, ast.If)), None)
+        gtxt = _positive_text(guard.test) if guard is not None else "?"
+        ck.check(ok, "G-TYPESTATE", f"uncertainty_tokenizer|optional-token-is-yielded|if {gtxt}", tok.loc(st), "an optional token is passed on unchanged",
+                 f"under `if {gtxt}:` a token is consumed with `{norm(st)}` and not yielded: an optional token (the sign of the nominal value) is content, dropping it changes the value")
     ck.floor("G-TYPESTATE", cond, 1, "conditionally consumed tokens in uncertainty_tokenizer")
+
+
+def _ancestors(n):
+    n = getattr(n, "_parent", None)
+    while n is not None:
+        yield n
+        n = getattr(n, "_parent", None)
+
+
+def _positive_text(test):
+    """Text of a test without its leading negations (so that `if not c: ... else: X` and `if c: X` name X's guard alike)."""
+    while isinstance(test, ast.UnaryOp) and isinstance(test.op, ast.Not):
+        test = test.operand
+    return norm(test)
 
 
 def lookahead_offsets_rule(ck, ix):
     """In each branch of the uncertainty tokenizer the guard inspects tokens at look-ahead offsets 0..k (shifted by the
     optional-minus count where there is one) and the trailing exponent is searched right behind the last inspected
-    token: offset k+1 with the same shift.  The number of tokens consumed equals the number inspected."""
+    token: offset k+1 with the same shift.  The number of tokens consumed equals the number inspected.
+    The guard of a branch = the atomic conditions known to hold where the exponent search executes (shape.facts_at), so
+    the spelling of the dispatch (elif chain, guard clauses, flipped tests) does not matter."""
     tok = ix.func(PE, "uncertainty_tokenizer")
+    fn = tok.node
 
     def offset(e):
         """(has_shift, constant) of an offset expression, or None"""
@@ -124,45 +262,49 @@ def lookahead_offsets_rule(ck, ix):
                 return (a[0] or b[0], a[1] + b[1])
         return None
 
-    loops = [l for l in tok.node.body if isinstance(l, ast.For)]
+    is_la = lambda c: isinstance(c, ast.Call) and isinstance(c.func, ast.Attribute) and c.func.attr == "lookahead" and c.args
+
+    def guard_of(node):
+        """(offsets inspected by the conditions that hold at `node`, line of the innermost branch whose test inspects)"""
+        la = [offset(c.args[0]) for a, truth in shape.facts_at(node, fn) if truth for c in ast.walk(a) if is_la(c)]
+        line = next((p.lineno for p in _ancestors(node) if isinstance(p, ast.If) and any(is_la(c) for c in ast.walk(p.test))), fn.lineno)
+        return [o for o in la if o is not None], line
+
+    def in_test(node):
+        prev = node
+        for p in _ancestors(node):
+            if isinstance(p, (ast.If, ast.While, ast.IfExp)) and prev is p.test:
+                return True
+            if isinstance(p, ast.stmt):
+                return False
+            prev = p
+        return False
+
     n = 0
-    for loop in loops:
-        chain = [st for st in loop.body if isinstance(st, ast.If)]
-        branches = []
-        for iff in chain:
-            cur = iff
-            while isinstance(cur, ast.If):
-                branches.append(cur)
-                cur = cur.orelse[0] if len(cur.orelse) == 1 and isinstance(cur.orelse[0], ast.If) else None
-        for br in branches:
-            la = []
-            for c in ast.walk(br.test):
-                if isinstance(c, ast.Call) and isinstance(c.func, ast.Attribute) and c.func.attr == "lookahead" and c.args:
-                    o = offset(c.args[0])
-                    if o is not None:
-                        la.append(o)
-            pe = [c for st in br.body for c in ast.walk(st) if isinstance(c, ast.Call) and call_name(c) == "_get_possible_e" and len(c.args) >= 2]
-            if not la or not pe:
+    for c in [c for c in walk_local(fn) if isinstance(c, ast.Call)]:
+        if call_name(c) == "_get_possible_e" and len(c.args) >= 2:
+            la, line = guard_of(c)
+            if not la:
                 continue
-            shifted = any(h for h, _ in la)
+            shifted, top = any(h for h, _ in la), max(k for _, k in la)
+            n += 1
+            o = offset(c.args[1])
+            ok = o is not None and o[1] == top + 1 and o[0] == shifted
+            ck.check(ok, "G-TWIN", f"uncertainty_tokenizer|exponent-searched-behind-last-inspected-token|L{line - fn.lineno}", tok.loc(c),
+                     f"exponent look-ahead at offset {'seen_minus + ' if shifted else ''}{top + 1}",
+                     f"`{norm(c)}`: the guard of this branch inspects look-ahead offsets up to {'seen_minus + ' if shifted else ''}{top}; the exponent must be searched at {'seen_minus + ' if shifted else ''}{top + 1} (with an optional leading minus the fixed offset points at the closing parenthesis and the exponent tokens leak into the expression)")
+        elif is_la(c) and not in_test(c):
+            # look-ahead calls in the body of a branch (e.g. `.end` of the closing token) use the same shift
+            la, line = guard_of(c)
+            o = offset(c.args[0])
+            if not la or o is None or not any(h for h, _ in la):
+                continue
+            n += 1
             top = max(k for _, k in la)
-            for c in pe:
-                n += 1
-                o = offset(c.args[1])
-                ok = o is not None and o[1] == top + 1 and o[0] == shifted
-                ck.check(ok, "G-TWIN", f"uncertainty_tokenizer|exponent-searched-behind-last-inspected-token|L{br.lineno - tok.node.lineno}", tok.loc(c),
-                         f"exponent look-ahead at offset {'seen_minus + ' if shifted else ''}{top + 1}",
-                         f"`{norm(c)}`: the guard of this branch inspects look-ahead offsets up to {'seen_minus + ' if shifted else ''}{top}; the exponent must be searched at {'seen_minus + ' if shifted else ''}{top + 1} (with an optional leading minus the fixed offset points at the closing parenthesis and the exponent tokens leak into the expression)")
-            # body look-ahead calls (e.g. `.end` of the closing token) use the same shift
-            for st in br.body:
-                for c in ast.walk(st):
-                    if isinstance(c, ast.Call) and isinstance(c.func, ast.Attribute) and c.func.attr == "lookahead" and c.args:
-                        o = offset(c.args[0])
-                        if o is not None and shifted:
-                            n += 1
-                            ck.check(o[0] and o[1] <= top, "G-TWIN", f"uncertainty_tokenizer|body-lookahead-shifted|L{c.lineno - tok.node.lineno}", tok.loc(c), "body look-ahead uses the shifted offset",
-                                     f"`{norm(c)}` in a branch with an optional leading minus must be shifted by seen_minus and stay within the inspected tokens")
+            ck.check(o[0] and o[1] <= top, "G-TWIN", f"uncertainty_tokenizer|body-lookahead-shifted|L{c.lineno - fn.lineno}", tok.loc(c), "body look-ahead uses the shifted offset",
+                     f"`{norm(c)}` in a branch with an optional leading minus must be shifted by seen_minus and stay within the inspected tokens")
     ck.floor("G-TWIN", n, 2, "exponent look-ahead sites in uncertainty_tokenizer")
+
 
 def run(ck, ix, tier):
     rs = Resolver(ix)
@@ -205,15 +347,20 @@ def run(ck, ix, tier):
             continue
         ck.check(sym in binm, "G-TABLE", f"_OP_PRIORITY|{sym or 'juxtaposition'}-has-evaluator", where, "every parsed operator can be evaluated", f"operator `{sym}` has a priority but no evaluator")
     pw = pe.functions.get("_power")
-    ck.check(pw is not None and "return operator.pow(left, right)" in norm(pw.node), "G-TABLE", "_power|is-pow", pw.loc() if pw else where, "_power is exponentiation", "_power no longer returns operator.pow(left, right)")
+    pw_rets = shape.returns_of(pw.node) if pw else []
+    ck.check(bool(pw_rets) and all(_m(r.value, "operator.pow(left, right)", "pow(left, right)", "left ** right") is not None for r in pw_rets), "G-TABLE", "_power|is-pow", pw.loc() if pw else where, "_power is exponentiation", "_power no longer returns operator.pow(left, right)")
     plus, minus = unm.get("+"), unm.get("-")
     ck.check(plus is not None and isinstance(plus, ast.Lambda) and norm(plus.body) == plus.args.args[0].arg, "G-TABLE", "_UNARY_OPERATOR_MAP|+", where, "unary + is the identity", "unary + is no longer the identity")
     ok = minus is not None and isinstance(minus, ast.Lambda) and norm(minus.body).replace(" ", "") in (f"{minus.args.args[0].arg}*-1", f"-{minus.args.args[0].arg}", f"-1*{minus.args.args[0].arg}")
     ck.check(ok, "G-TABLE", "_UNARY_OPERATOR_MAP|-", where, "unary - negates", "unary - no longer negates its operand")
     sp = ix.func(U, "string_preprocessor")
     ck.analysed(sp)
-    ck.check("input_string.replace('^', '**')" in norm(sp.node), "G-TABLE", "string_preprocessor|caret-is-power", sp.loc(), "^ is rewritten to **", "the preprocessor no longer rewrites ^ to **")
-    ck.check("input_string.replace(' per ', '/')" in norm(sp.node), "G-TABLE", "string_preprocessor|per-is-division", sp.loc(), "' per ' is rewritten to /", "the preprocessor no longer rewrites ' per ' to /")
+    # a rewrite counts when its result reaches the returned string (whatever the names of the intermediate strings)
+    sp_sinks = [r.value for r in shape.returns_of(sp.node)]
+    sp_flow = _flow_into(sp.node, sp_sinks)
+    rewrites = lambda a, b: any(_reaches(c, sp.node, sp_sinks, sp_flow) for c in walk_local(sp.node) if isinstance(c, ast.Call) and _m(c, f"_S.replace({a!r}, {b!r})") is not None)
+    ck.check(rewrites("^", "**"), "G-TABLE", "string_preprocessor|caret-is-power", sp.loc(), "^ is rewritten to **", "the preprocessor no longer rewrites ^ to **")
+    ck.check(rewrites(" per ", "/"), "G-TABLE", "string_preprocessor|per-is-division", sp.loc(), "' per ' is rewritten to /", "the preprocessor no longer rewrites ' per ' to /")
     subs = ix.module(U).assigns.get("_subs_re_list")
     if isinstance(subs, ast.List):
         pairs = {}
@@ -234,53 +381,93 @@ def run(ck, ix, tier):
     fb = ix.func(PE, "_build_eval_tree")
     ck.analysed(fb)
     cfg = cfg_of(fb)
-    # right-associativity only for ** and ^
-    from .. import shape
+    fn = fb.node
     consts = shape.module_constants(fb.module)
+    # role: the operator text = the expression whose membership in the priority table (parameter op_priority) is tested
+    opt = {shape.rnorm(c.left, fn) for c in walk_local(fn) if isinstance(c, ast.Compare) and len(c.ops) == 1 and isinstance(c.ops[0], (ast.In, ast.NotIn)) and norm(c.comparators[0]) == "op_priority"}
+    ck.floor("G-TABLE", len(opt), 1, "membership tests of the operator text in op_priority")
+    is_optext = lambda e: shape.rnorm(e, fn) in opt
+    # right-associativity only for ** and ^
     ra = []
-    for t in walk_local(fb.node):
-        if isinstance(t, ast.Compare) and isinstance(t.ops[0], (ast.NotIn, ast.In)) and norm(t.left) == "token_text":
-            comp = t.comparators[0]
-            if isinstance(comp, ast.Name) and comp.id in consts:
-                comp = consts[comp.id]  # a module-level constant
-            if isinstance(comp, (ast.Tuple, ast.List, ast.Set)) and all(isinstance(e, ast.Constant) and isinstance(e.value, str) for e in comp.elts) and any(e.value in ("**", "^") for e in comp.elts):
-                ra.append((t, sorted(e.value for e in comp.elts)))
+    for t in walk_local(fn):
+        if isinstance(t, ast.Compare) and len(t.ops) == 1 and isinstance(t.ops[0], (ast.NotIn, ast.In)) and is_optext(t.left):
+            vals = _literal_strings(t.comparators[0], consts)
+            if vals and any(v in ("**", "^") for v in vals):
+                ra.append((t, vals))
     ok = len(ra) == 1 and ra[0][1] == ["**", "^"]
     ck.check(ok, "G-TABLE", "_build_eval_tree|right-associative-only-power", fb.loc(ra[0][0]) if ra else fb.loc(), "only ** and ^ group right-to-left", f"the set of right-associative operators is {[r[1] for r in ra]}, not exactly {{**, ^}}")
-    cmps = [c for c in walk_local(fb.node) if isinstance(c, ast.Compare) and "op_priority.get(prev_op, -1)" in norm(c.comparators[0]) and "op_priority[" in norm(c.left)]
+    # priority comparisons `op_priority[<operator>] <= op_priority.get(prev_op, -1)`, in either operand order
+    cmps = []
+    for c in walk_local(fn):
+        if isinstance(c, ast.Compare) and len(c.ops) == 1 and type(c.ops[0]) in _MIRROR:
+            for l, r, op in ((c.left, c.comparators[0], type(c.ops[0])), (c.comparators[0], c.left, _MIRROR[type(c.ops[0])])):
+                lr, rr = shape.resolve(l, fn), shape.resolve(r, fn)
+                if _m(rr, "op_priority.get(prev_op, -1)") is not None and isinstance(lr, ast.Subscript) and norm(lr.value) == "op_priority":
+                    label = "op_priority[token_text]" if norm(lr.slice) in opt else norm(lr)
+                    cmps.append((c, op, label))
     ck.check(len(cmps) == 2, "G-TABLE", "_build_eval_tree|two-priority-comparisons", fb.loc(), "explicit and implicit operators compare their priority with the enclosing operator", f"{len(cmps)} priority comparisons found (expected 2)")
-    for c in cmps:
-        ck.check(isinstance(c.ops[0], ast.LtE), "G-TABLE", f"_build_eval_tree|equal-priority-groups-left|{norm(c.left)}", fb.loc(c), "`<=`: an operator of equal priority ends the previous operation (left-to-right grouping)",
+    for c, op, label in cmps:
+        ck.check(op is ast.LtE, "G-TABLE", f"_build_eval_tree|equal-priority-groups-left|{label}", fb.loc(c), "`<=`: an operator of equal priority ends the previous operation (left-to-right grouping)",
                  f"`{norm(c)}` must use <= : with < an operator of equal priority is pulled into the right operand (a/(b)c would parse as a/(b*c))")
-    ck.check(any(norm(c.left) == "op_priority['']" for c in cmps), "G-TABLE", "_build_eval_tree|juxtaposition-uses-its-own-priority", fb.loc(), "implicit multiplication uses the priority of ''", "implicit multiplication no longer uses op_priority['']")
-    unary = [c for c in walk_local(fb.node) if isinstance(c, ast.Call) and call_name(c) == "_build_eval_tree" and len(c.args) >= 5 and norm(c.args[4]) == "'unary'"]
+    ck.check(any(label == "op_priority['']" for _, _, label in cmps), "G-TABLE", "_build_eval_tree|juxtaposition-uses-its-own-priority", fb.loc(), "implicit multiplication uses the priority of ''", "implicit multiplication no longer uses op_priority['']")
+    rec = [c for c in walk_local(fn) if isinstance(c, ast.Call) and call_name(c) == "_build_eval_tree"]
+    unary = [c for c in rec if (len(c.args) >= 5 and norm(c.args[4]) == "'unary'") or any(k.arg == "prev_op" and norm(k.value) == "'unary'" for k in c.keywords)]
     ck.check(len(unary) == 1, "G-TABLE", "_build_eval_tree|unary-operand-parsed-at-unary-priority", fb.loc(), "operand of a unary sign parsed with prev_op='unary'", "the operand of a unary sign is no longer parsed at the 'unary' priority")
-    # every `return result, ...` needs result to be known non-None
-    rets = [r for r in return_nodes(cfg) if isinstance(cfg.nodes[r].ast.value, ast.Tuple) and norm(cfg.nodes[r].ast.value.elts[0]) == "result"]
+    # every `return <tree>, <index>` needs the tree to be known non-None.  Role: the tree variable is whatever name is
+    # returned as first element of the (tree, index) pair.
+    rets = []
+    for r in return_nodes(cfg):
+        v = shape.unalias(cfg.nodes[r].ast.value, fn) if cfg.nodes[r].ast.value is not None else None
+        if isinstance(v, ast.Tuple) and len(v.elts) == 2:
+            rets.append((r, v.elts[0]))
     ck.floor("G-DOM", len(rets), 3, "returns of the tree builder")
     # a path to `return result, ...` on which result was never assigned, never tested truthy and never asserted non-None
     # returns None as a sub-tree (result starts as None and is only ever assigned tree nodes)
-    asserts = [n.id for n in cfg.nodes if n.kind == "stmt" and isinstance(n.ast, ast.Assert) and norm(n.ast.test) in ("result is not None", "result")]
-    assigns = [n.id for n in cfg.nodes if n.kind == "stmt" and isinstance(n.ast, ast.Assign) and any(isinstance(t, ast.Name) and t.id == "result" for t in n.ast.targets)
-               and not (isinstance(n.ast.value, ast.Constant) and n.ast.value.value is None)]
-    truthy = shape.guard_edges(cfg, lambda a: (isinstance(a, ast.Name) and a.id == "result") or norm(a) == "result is not None")
-    for r in live(cfg, rets):
-        p = cfg.path(cfg.entry, [r], avoid=set(asserts) | set(assigns), avoid_edges=set(truthy))
-        ck.check(p is None, "G-DOM", f"_build_eval_tree|result-known-before-return|L{cfg.nodes[r].text()[:40]}", fb.loc(cfg.nodes[r].ast),
+    known = {}
+
+    def known_non_none(R):
+        if R not in known:
+            not_none = lambda a: _m(a, f"{R} is not None") is not None
+            is_none = lambda a: _m(a, f"{R} is None", f"None is {R}") is not None
+            truthy = lambda a: isinstance(a, ast.Name) and a.id == R
+            asserts = [n.id for n in cfg.nodes if n.kind == "stmt" and isinstance(n.ast, ast.Assert) and any((t and (truthy(a) or not_none(a))) or (not t and is_none(a)) for a, t in shape.conjuncts(n.ast.test, "t"))]
+            assigns = [n.id for n in cfg.nodes if n.kind == "stmt" and isinstance(n.ast, (ast.Assign, ast.AnnAssign)) and n.ast.value is not None
+                       and any(isinstance(x, ast.Name) and x.id == R for t in (n.ast.targets if isinstance(n.ast, ast.Assign) else [n.ast.target]) for x in ast.walk(t))
+                       and not (isinstance(n.ast.value, ast.Constant) and n.ast.value.value is None)]
+            edges = shape.guard_edges(cfg, lambda a: truthy(a) or not_none(a), True) + shape.guard_edges(cfg, is_none, False)
+            known[R] = (set(asserts) | set(assigns), set(edges))
+        return known[R]
+
+    live_rets = set(live(cfg, [r for r, _ in rets]))
+    for r, first in rets:
+        if r not in live_rets:
+            continue
+        text = cfg.nodes[r].text()
+        if isinstance(first, ast.Name):
+            avoid, avoid_edges = known_non_none(first.id)
+            p = cfg.path(cfg.entry, [r], avoid=avoid, avoid_edges=avoid_edges)
+            text = re.sub(rf"\b{re.escape(first.id)}\b", "result", text)
+        else:
+            p = [r] if isinstance(first, ast.Constant) and first.value is None else None
+        ck.check(p is None, "G-DOM", f"_build_eval_tree|result-known-before-return|L{text[:40]}", fb.loc(cfg.nodes[r].ast),
                  "`result` is assigned, tested or asserted non-None on every path to this return",
                  f"`{cfg.nodes[r].text()}` can return None as a sub-tree: a dangling operator (e.g. '3 m +') would be evaluated as a unary operation instead of raising", witness(cfg, p))
-    # parentheses
-    tests = {("unopened", "prev_op == '<none>'"): None, ("unclosed", "prev_op == '('"): None}
-    for (name, cond) in tests:
-        ts = [n.id for n in cfg.nodes if n.kind == "test" and norm(n.ast) == cond]
-        bad = [t for t in ts if edge_leads_only_to_raise(cfg, t, "t") is None]
+    # parentheses: `prev_op == '<none>'` / `prev_op == '('` where a ')' / the end of input is met must raise
+    is_prev = lambda e: isinstance(e, ast.Name) and e.id == "prev_op"
+    for name, const in (("unopened", "<none>"), ("unclosed", "(")):
+        bad = _raising_edges(cfg, lambda a, const=const: _eq_const(a, const, is_prev), True)
         ck.check(bool(bad), "G-DOM", f"_build_eval_tree|{name}-parenthesis-raises", fb.loc(), f"{name} parenthesis raises DefinitionSyntaxError", f"an {name} parenthesis no longer raises")
-    ck.check("raise DefinitionSyntaxError('weird exit from parentheses')" in norm(fb.node), "G-DOM", "_build_eval_tree|group-must-end-with-closing-parenthesis", fb.loc(), "a group must end at ')'", "the check that a parenthetical group ends at ')' is gone")
-    ck.check("raise DefinitionSyntaxError('unexpected end to tokens')" in norm(fb.node), "G-DOM", "_build_eval_tree|running-off-the-token-list-raises", fb.loc(), "running off the token list raises", "running off the token list no longer raises")
+    # where the operator text is '(' (the branch that parses a group), a token that is not ')' behind the group raises
+    opens_group = lambda a: _eq_const(a, "(", is_optext)
+    closes = lambda a: _eq_const(a, ")", lambda e: not is_optext(e) and any(isinstance(x, ast.Name) and x.id == "tokens" for x in ast.walk(shape.resolve(e, fn))))
+    grp = [(t, lab) for (t, lab) in _raising_edges(cfg, closes, False) if shape.holds_at(cfg.nodes[t].ast, fn, opens_group, True)]
+    ck.check(bool(grp), "G-DOM", "_build_eval_tree|group-must-end-with-closing-parenthesis", fb.loc(), "a group must end at ')'", "the check that a parenthetical group ends at ')' is gone")
+    # a comparison against len(tokens) one side of which only raises
+    ends = lambda a: isinstance(a, ast.Compare) and any(_m(x, "len(tokens)") is not None for x in ast.walk(a))
+    ck.check(bool(_raising_edges(cfg, ends, True) + _raising_edges(cfg, ends, False)), "G-DOM", "_build_eval_tree|running-off-the-token-list-raises", fb.loc(), "running off the token list raises", "running off the token list no longer raises")
     fe = ix.func(PE, "EvalTreeNode.evaluate")
     ck.analysed(fe)
     cfge = cfg_of(fe)
-    from .. import shape
     from ..lib import guarded
     for name, tbl in (("binary", "bin_op"), ("unary", "un_op")):
         # candidates by role: every read `tbl[key]` of the operator table
@@ -304,18 +491,11 @@ def run(ck, ix, tier):
     # sign sets of the exponent look-ahead (writer) and its consumer (reader)
     tok = ix.func(PE, "uncertainty_tokenizer")
     ck.analysed(tok)
-    sets = {}
-    for f in [g for g in pe.all_functions if g.parent is tok and g.name in ("_get_possible_e", "_finalize_e")]:
-        for c in walk_local(f.node):
-            if isinstance(c, ast.Compare) and isinstance(c.ops[0], (ast.In, ast.Eq)) and isinstance(c.comparators[0], (ast.List, ast.Tuple, ast.Constant)):
-                comp = c.comparators[0]
-                vals = sorted(e.value for e in comp.elts) if not isinstance(comp, ast.Constant) else [comp.value]
-                if set(vals) <= {"+", "-"} and vals:
-                    sets.setdefault(f.name, []).append((vals, c))
-    ok = "_get_possible_e" in sets and "_finalize_e" in sets and all(v == ["+", "-"] for v, _ in sets["_get_possible_e"] + sets["_finalize_e"])
+    sets = exponent_sign_sets(ix)
+    ok = "_get_possible_e" in sets and "_finalize_e" in sets and all(v == ["+", "-"] for v in sets["_get_possible_e"] + sets["_finalize_e"])
     ck.check(ok, "G-TWIN", "uncertainty_tokenizer|exponent-sign-sets-agree", tok.loc(), "the exponent look-ahead and the token consumer accept the same signs {+, -}",
-             f"the exponent look-ahead accepts {[v for v, _ in sets.get('_get_possible_e', [])]} but the consumer handles {[v for v, _ in sets.get('_finalize_e', [])]}: tokens of an accepted exponent leak back into the expression")
-    ck.check("input_string.replace('±', '+/-')" in norm(tok.node), "G-TABLE", "uncertainty_tokenizer|plus-minus-sign", tok.loc(), "± is rewritten to +/-", "± is no longer rewritten to +/-")
+             f"the exponent look-ahead accepts {sets.get('_get_possible_e', [])} but the consumer handles {sets.get('_finalize_e', [])}: tokens of an accepted exponent leak back into the expression")
+    ck.check(plus_minus_sign_rewritten(ix), "G-TABLE", "uncertainty_tokenizer|plus-minus-sign", tok.loc(), "± is rewritten to +/-", "± is no longer rewritten to +/-")
 
     token_conservation_rule(ck, ix)
     lookahead_offsets_rule(ck, ix)
@@ -323,32 +503,34 @@ def run(ck, ix, tier):
     # ------------------------------------------------------------ (c) literal typing (shared with C02)
     fi = ix.func(U, "ParserHelper.eval_token")
     ck.analysed(fi)
-    src = norm(fi.node)
-    ck.check("return non_int_type(token_text)" in src and src.index("int(token_text)") < src.index("float(token_text)"), "G-PROV", "eval_token|literal-typing", fi.loc(), "ints first, else float / non_int_type(text)", "numeric literals are no longer typed int-first / non_int_type(text)")
+    fn = fi.node
+    text_of = lambda e, fn=fn: shape.rnorm(e, fn) in ("token.string", "token[1]")          # the text of parameter `token`
+    conv = lambda name, fn=fn: [c for c in walk_local(fn) if isinstance(c, ast.Call) and isinstance(c.func, ast.Name) and c.func.id == name and len(c.args) == 1 and not c.keywords and text_of(c.args[0])]
+    exact = [c for c in conv("non_int_type") if isinstance(getattr(c, "_parent", None), ast.Return)]
+    int_first = any(any(any(c is x for x in ast.walk(st)) for st in t.body for c in conv("int")) and any(any(c is x for x in ast.walk(h)) for h in t.handlers for c in conv("float"))
+                    for t in walk_local(fn) if isinstance(t, ast.Try))
+    ck.check(bool(exact) and int_first, "G-PROV", "eval_token|literal-typing", fi.loc(), "ints first, else float / non_int_type(text)", "numeric literals are no longer typed int-first / non_int_type(text)")
     fi = ix.func(PR, "GenericPlainRegistry._eval_token")
     ck.analysed(fi)
-    src = norm(fi.node)
-    ck.check("ParserHelper.eval_token(token, non_int_type=self.non_int_type)" in src, "G-PROV", "_eval_token|numbers-in-registry-type", fi.loc(), "numbers evaluated in the registry's numeric type", "numbers are no longer evaluated with self.non_int_type")
-    ck.check("self.get_name(token_text, case_sensitive=case_sensitive)" in src and "raise Exception('unknown token type')" in src, "G-PROV", "_eval_token|names-are-registry-lookups", fi.loc(), "names are resolved by registry lookup only; other token types raise", "name tokens are no longer resolved by get_name / unknown token types no longer raise")
+    fn = fi.node
+    ck.check(lib.has(ix, fi, "ParserHelper.eval_token(token, non_int_type=self.non_int_type)"), "G-PROV", "_eval_token|numbers-in-registry-type", fi.loc(), "numbers evaluated in the registry's numeric type", "numbers are no longer evaluated with self.non_int_type")
+    # the token text (element 1 / .string of parameter `token`) is looked up with get_name; a token that is neither a
+    # NAME nor a NUMBER (element 0 / .type of `token`) raises
+    looked_up = [c for c in walk_local(fn) if isinstance(c, ast.Call) and _m(c, "self.get_name(_T, case_sensitive=case_sensitive)") is not None and shape.rnorm(c.args[0], fn) in ("token[1]", "token.string")]
+    kind = lambda const: (lambda a: _eq_name(a, const, lambda e: shape.rnorm(e, fn) in ("token[0]", "token.type")))
+    other = [r for r in walk_local(fn) if isinstance(r, ast.Raise) and shape.holds_at(r, fn, kind("NAME"), False) and shape.holds_at(r, fn, kind("NUMBER"), False)]
+    ck.check(bool(looked_up) and bool(other), "G-PROV", "_eval_token|names-are-registry-lookups", fi.loc(), "names are resolved by registry lookup only; other token types raise", "name tokens are no longer resolved by get_name / unknown token types no longer raise")
     fi = ix.func(PR, "GenericPlainRegistry.parse_expression")
     ck.analysed(fi)
-    src = norm(fi.node)
-    ck.check("input_string = string_preprocessor(input_string)" in src and "gen = pint_eval.tokenizer(input_string)" in src and "return build_eval_tree(gen).evaluate(_define_op)" in src, "G-PROV", "parse_expression|pipeline", fi.loc(),
+    # the returned value is build_eval_tree(tokenizer(string_preprocessor(<string>))).evaluate(<f>), <f> evaluating tokens with _eval_token
+    pipe = [(n, b) for n, b, _ in lib.find(ix, fi, "build_eval_tree(pint_eval.tokenizer(string_preprocessor(_S))).evaluate(_F)") if isinstance(getattr(n, "_parent", None), ast.Return)]
+    uses_eval_token = lambda name: any(isinstance(g, ast.FunctionDef) and g.name == name and any(isinstance(c, ast.Call) and _m(c.func, "self._eval_token") is not None for c in ast.walk(g)) for g in ast.walk(fi.node))
+    ck.check(bool(pipe) and all(b["_F"] == "self._eval_token" or b["_F"].startswith("partial(self._eval_token") or uses_eval_token(b["_F"]) for _, b in pipe), "G-PROV", "parse_expression|pipeline", fi.loc(),
              "preprocess -> tokenize -> build tree -> evaluate with _eval_token", "the parse_expression pipeline changed")
 
     # ------------------------------------------------------------ (a) G-REACH
     reach_rule(ck, ix, rs)
     return EXPLANATION
-
-
-def _inside_true_branch(node, name):
-    p = getattr(node, "_parent", None)
-    child = node
-    while p is not None and not isinstance(p, (ast.FunctionDef, ast.While)):
-        if isinstance(p, ast.If) and child in p.body and norm(p.test) == name:
-            return True
-        child, p = p, getattr(p, "_parent", None)
-    return False
 
 
 ENTRIES = [(PR, "GenericPlainRegistry.parse_expression"), (PR, "GenericPlainRegistry._eval_token"), (PR, "GenericPlainRegistry.parse_units"),
@@ -471,18 +653,10 @@ def reach_rule(ck, ix, rs):
 
 
 def _guarded_by_constant_table(f, call):
-    """import_module(module_name): module_name derives from a name that was tested `in <module table>` (false edge returns)."""
+    """import_module(module_name): module_name derives from a name that is known to be `in <module-level table>` on every
+    path to the call (the membership test may be spelled `in` / `not in`, as a guard clause or as an if/else)."""
     cfg = cfg_of(f)
     defs = defs_of(f)
-    ids = cfg.nodes_for_ast(call)
-    tests = []
-    for n in cfg.nodes:
-        if n.kind == "test" and isinstance(n.ast, ast.Compare) and isinstance(n.ast.ops[0], (ast.In, ast.NotIn)):
-            tbl = n.ast.comparators[0]
-            if isinstance(tbl, ast.Name) and tbl.id in f.module.assigns:
-                tests.append((n.id, "t" if isinstance(n.ast.ops[0], ast.In) else "f", norm(n.ast.left)))
-    if not tests:
-        return False
     roots = set()
     todo = [n.id for a in call.args for n in ast.walk(a) if isinstance(n, ast.Name)]
     while todo:
@@ -493,11 +667,7 @@ def _guarded_by_constant_table(f, call):
         for (v, kind, st) in defs.defs.get(nm, []):
             if v is not None:
                 todo += [n.id for n in ast.walk(v) if isinstance(n, ast.Name)]
-    for (tid, ok_edge, var) in tests:
-        if var not in roots:
-            continue
-        bad_edge = "f" if ok_edge == "t" else "t"
-        p = cfg.all_paths_pass(cfg.entry, ids, [], avoid_edges=[(tid, ok_edge)])
-        if p is None:
-            return True
-    return False
+    vetted = lambda a: (isinstance(a, ast.Compare) and len(a.ops) == 1 and isinstance(a.ops[0], ast.In) and isinstance(a.comparators[0], ast.Name)
+                        and a.comparators[0].id in f.module.assigns and isinstance(a.left, ast.Name) and a.left.id in roots)
+    safe = shape.guard_edges(cfg, vetted, want=True)
+    return bool(safe) and shape.reachable_without(cfg, live(cfg, cfg.nodes_for_ast(call)), safe) is None
